@@ -1,31 +1,29 @@
-"""Regenerates MANIFEST.json from the table below (run: /venv/bin/python harness/manifest_gen.py)."""
+"""
+Regenerates MANIFEST.json from harness/manifest.d/Cxx.json and known_findings.json from
+known_findings.d/*.json.   Run:  /venv/bin/python harness/manifest_gen.py
+(Development-time only; no check ever writes either file.)
+
+manifest.d/Cxx.json: {"text": level_claimed.text, "design": DESIGN.md section, "note": level_note,
+                      "technique": few words}
+not_applicable.json (optional): [{"property_id":…, "reason":…}]
+"""
+import glob
 import json
 import os
 
 VERIF = os.path.dirname(os.path.dirname(os.path.abspath(__file__)))
 ALL = [f'C{i:02d}' for i in range(1, 21)]
 
-CHECKS = {
-    'C01': dict(
-        text='Lean 4 theorems (C01_iter_eq_chunks, C01_count, C01_only_last_short, C01_collect_perm, '
-             'C01_generate_spec) prove for every piece length, every list of files and every arrival order of '
-             'the hashers\' results that the code-shaped model of iter_pieces/Reader/Collector/generate stores '
-             'map H (chunks L stream) with ceil(total/L) digests; the model is tied to the code by a '
-             'differential run of the compiled model driver against TorrentFileStream.iter_pieces and '
-             'Torrent.generate on the same layouts (bytes and SHA-1 compared).',
-        design='§7 C01',
-        note='Trusted: Lean kernel, axioms propext/Classical.choice/Quot.sound, the correspondence harness; '
-             'SHA-1 is a parameter; float division in Torrent.pieces exact below 2^52; thread schedules are C03.',
-        technique='Lean 4 proof (fold invariant, refinement to chunks) + model/implementation correspondence check'),
-}
-
 
 def main():
     checks = []
+    claimed = []
     for pid in ALL:
-        if pid not in CHECKS:
+        p = os.path.join(VERIF, 'harness', 'manifest.d', f'{pid}.json')
+        if not os.path.exists(p):
             continue
-        c = CHECKS[pid]
+        c = json.load(open(p))
+        claimed.append(pid)
         checks.append({
             'property_id': pid,
             'quick_cmd': f'./check {pid} --tier quick',
@@ -37,8 +35,11 @@ def main():
             'level_note': c['note'],
             'technique': c['technique'],
         })
-    na = [{'property_id': pid, 'reason': 'check not built yet in this round (no claim made); see DESIGN.md §7 for the planned proof'}
-          for pid in ALL if pid not in CHECKS]
+    na_path = os.path.join(VERIF, 'harness', 'manifest.d', 'not_applicable.json')
+    na_given = {e['property_id']: e['reason'] for e in json.load(open(na_path))} if os.path.exists(na_path) else {}
+    na = [{'property_id': pid,
+           'reason': na_given.get(pid, 'check not built yet (no claim made); DESIGN.md §7 has the planned proof')}
+          for pid in ALL if pid not in claimed]
     m = {
         'version': 1,
         'setup_cmd': 'cd lean && lake build Torf driver',
@@ -52,9 +53,9 @@ def main():
         'engines': [{
             'name': 'lean4-proof+correspondence',
             'path': 'lean/ (models, specs, theorems, driver) + harness/ (correspondence, findings, evidence)',
-            'serves_properties': [c['property_id'] for c in checks],
+            'serves_properties': claimed,
             'kind_free_text': 'machine-checked proof in Lean 4 about hand-written executable models; models tied to the '
-                              'code by a differential correspondence check and a kernel translator',
+                              'code by a differential correspondence check (and a kernel translator)',
         }],
         'checks': checks,
         'not_applicable': na,
@@ -62,6 +63,19 @@ def main():
     }
     with open(os.path.join(VERIF, 'MANIFEST.json'), 'w') as f:
         json.dump(m, f, indent=1)
+        f.write('\n')
+    findings = []
+    for p in sorted(glob.glob(os.path.join(VERIF, 'known_findings.d', '*.json'))):
+        findings.extend(json.load(open(p))['findings'])
+    ids = [f['id'] for f in findings]
+    assert len(ids) == len(set(ids)), 'duplicate finding ids'
+    with open(os.path.join(VERIF, 'known_findings.json'), 'w') as f:
+        json.dump({
+            'format': 'status "open": genuine defect recorded, not repaired; its witness is replayed on every run and a '
+                      'KNOWN-FINDING line is printed while it still fails; `matcher` names the predicate (in '
+                      'harness/props/<prop>.py) that is as narrow as the defect.  status "fixed": repaired by the '
+                      'given fix: commit in /repo; suppresses nothing; `line` is the record required by the interface.',
+            'findings': findings}, f, indent=1)
         f.write('\n')
 
 
